@@ -54,10 +54,16 @@ fn main() {
         let d: Vec<VarDecl> = (0..nv).map(|i| VarDecl { name: ["x", "y"][i].to_string(), ty: VariableType::IntegerRange(r.range(-6, 0) as i32, r.range(4, 10) as i32), used: true }).collect();
         let mut cs = Vec::new();
         for (j, v) in d.iter().enumerate() {
-            for _ in 0..1 + r.below(2) {
+            // one row that bounds the variable from above and sometimes one from below, both strictly inside the declared range
+            // and apart from each other: a derived bound that MEETS another bound within a few ulps is an exact tie in rational
+            // arithmetic and a coin toss in f64 (see split_numerical_ties), which is not what this stream is about
+            let (lo, hi) = match v.ty { VariableType::IntegerRange(a, c) => (a as i64, c as i64), _ => (0, 4) };
+            let mid = (lo + hi).div_euclid(2);
+            for side in 0..1 + r.below(2) {
                 let c = *r.pick(&[0.1, 0.3, 0.7, 0.9, 1.1, 1.3, 2.3, 0.6]) * if r.chance(1, 4) { -1.0 } else { 1.0 };
-                let k = r.range(-3, 6) as f64;
-                let cmp = match r.below(3) { 0 => Comparison::LessOrEqual, 1 => Comparison::GreaterOrEqual, _ => Comparison::LessOrEqual };
+                let upper = side == 0;
+                let k = if upper { r.range(mid + 1, hi - 1) } else { r.range(lo + 1, mid) } as f64;
+                let cmp = if upper == (c > 0.0) { Comparison::LessOrEqual } else { Comparison::GreaterOrEqual };
                 let lhs = if r.chance(1, 2) { bin(BinOp::Mul, num(c), var(&v.name)) } else { bin(BinOp::Mul, var(&v.name), num(c)) };
                 cs.push(Constraint::new(lhs, cmp, num(c * k), if j == 0 { "".into() } else { format!("r{j}") }));
             }
